@@ -25,6 +25,7 @@ CONSTANTS Calls,        \* set of call ids 1..N
           Behav,        \* key -> "value" | "excval" | "omit"
           Cancels,      \* BOOLEAN: callers may be cancelled while waiting
           Raises,       \* BOOLEAN: the batch function may raise instead of yielding an item
+          Misbehaves,   \* BOOLEAN: the batch function may yield a key it was not given / has already answered
           ShieldShared
 
 VARIABLES now,
@@ -168,8 +169,8 @@ BatchYield(b, f) ==  \* the batch function yields the result for one item (any o
                   ELSE SetFut(f, kind, tag)
     /\ UNCHANGED <<now, cpc, cfut, cache, queue, asm, ready, nb, sem>>
 
-BatchRaise(b) == \* the batch function raises: every unanswered future of the batch gets the exception
-    /\ Raises /\ b \in DOMAIN run /\ run[b].st = "run" /\ run[b].todo # {}
+BatchRaise(b) == \* the batch function raises (possibly after its last item): every unanswered future gets the exception
+    /\ Raises /\ b \in DOMAIN run /\ run[b].st = "run"
     /\ mon' = Emit([e |-> "BatchEnd", b |-> b, how |-> "raise"])
     /\ fut' = [g \in DOMAIN fut |-> IF g \in run[b].todo /\ fut[g].st = "pending"
                                     THEN [fut[g] EXCEPT !.st = "berr"] ELSE fut[g]]
@@ -178,6 +179,17 @@ BatchRaise(b) == \* the batch function raises: every unanswered future of the ba
     /\ run' = [run EXCEPT ![b].st = "done", ![b].todo = {}]
     /\ sem' = sem + 1
     /\ UNCHANGED <<now, cpc, cfut, cache, queue, asm, ready, nb, ny>>
+
+BatchMisbehave(b) == \* the function yields a key it was not given (or one it answered already): futs.pop(key)
+                     \* raises KeyError inside the `async with`; every unanswered future of the batch gets it
+    /\ Misbehaves /\ b \in DOMAIN run /\ run[b].st = "run"
+    /\ mon' = Emit([e |-> "BatchEnd", b |-> b, how |-> "misbehave"])
+    /\ fut' = [g \in DOMAIN fut |-> IF g \in run[b].todo /\ fut[g].st = "pending"
+                                    THEN [fut[g] EXCEPT !.st = "missing"] ELSE fut[g]]
+    /\ forgetAt' = [g \in DOMAIN forgetAt |-> IF g \in run[b].todo /\ fut[g].st = "pending" THEN now + RT ELSE forgetAt[g]]
+    /\ run' = [run EXCEPT ![b].st = "done", ![b].todo = {}]
+    /\ sem' = sem + 1
+    /\ UNCHANGED <<now, cpc, cfut, cache, ftag, queue, asm, ready, nb, ny>>
 
 BatchEnd(b) ==   \* the generator is exhausted: missing keys get ValueError; the slot is released
     /\ b \in DOMAIN run /\ run[b].st = "run"
@@ -208,7 +220,7 @@ Finish == AllDone /\ UNCHANGED vars
 
 DoForget == \E f \in DOMAIN forgetAt : Forget(f)
 DoYield == \E b \in DOMAIN run : \E f \in run[b].todo : BatchYield(b, f)
-DoRaise == \E b \in DOMAIN run : BatchRaise(b)
+DoRaise == \E b \in DOMAIN run : BatchRaise(b) \/ BatchMisbehave(b)
 DoEnd == \E b \in DOMAIN run : BatchEnd(b)
 Next == \/ \E i \in Calls : Arrive(i) \/ Answer(i) \/ CancelCaller(i)
         \/ DoForget \/ AsmTake \/ AsmTimeout \/ BatchStart \/ DoYield \/ DoRaise \/ DoEnd
